@@ -76,7 +76,9 @@ def body_volume(case):
     vol = intrinsic_volume(Y)
     # need a genuinely r-dimensional, not too skewed, shape (otherwise its affine rank is a matter of tolerance)
     sv = np.linalg.svd(Y - Y.mean(0), compute_uv=False)
-    if vol is None or sv[min(r, len(sv)) - 1] < 1e-2 * sv[0] or vol < 1e-6:
+    # compute_volume treats a cloud as a single point when np.allclose(X, X[0]) (relative tolerance 1e-5 of the coordinates):
+    # clouds smaller than 1e-3 of their distance from the origin are outside the explored domain (DESIGN 8.6)
+    if vol is None or sv[min(r, len(sv)) - 1] < 1e-2 * sv[0] or vol < 1e-6 or sv[0] < 1e-3 * (1.0 + float(np.max(np.abs(X))) + float(np.max(np.abs(case["shift"])))):
         return ["degenerate-shape-skipped"]
     X0 = X.copy()
     with calling("compute_volume"):
@@ -244,6 +246,10 @@ def body_est_gamut(case):
     Fh = F / F.sum(axis=0, keepdims=True)
     if np.linalg.matrix_rank(Fh.T - Fh.T.mean(0), tol=1e-6) < F.shape[0] - 1:
         return ["degenerate-filters-skipped"]      # identical receptors: the perfect system itself has no chromatic extent
+    Qs = np.asarray(case["sources"], dtype=float) @ F.T
+    Qh = Qs / Qs.sum(axis=1, keepdims=True)
+    if Qh.shape[0] < 2 or float(np.max(np.abs(Qh - Qh[0]))) < 1e-6:
+        return ["degenerate-sources-skipped"]      # all sources have the same chromaticity: the gamut has no chromatic extent (0 is correct)
     with calling("ReceptorEstimator.compute_gamut"):
         est = build_estimator(case)
         with np.errstate(all="ignore"):
